@@ -143,6 +143,13 @@ static void run_case(const std::string &line) {
     if (kv.count("ok") && kv["ok"] == "1") n->SetHandleOnlyKnownMessages(true);
     if (kv.count("iso")) { std::vector<unsigned long> *l = plist(kv["iso"]); g_iso_accept.assign(l->begin(), l->end() - 1); n->SetISORqstHandler(iso_handler); }
     if (kv.count("noconf") && kv["noconf"] == "1") n->SetProgmemConfigurationInformation(0, 0, 0);   // no configuration information at all
+    if (kv.count("fwd")) {            // forwarding options (no forward stream is attached): they must not change what is handled or delivered
+      int f = atoi(kv["fwd"].c_str());
+      if (f & 1) n->SetForwardOnlyKnownMessages(true);
+      if (f & 2) n->SetForwardSystemMessages(true);
+      if (f & 4) n->SetForwardOwnMessages(true);
+      if (f & 8) n->EnableForward(false);
+    }
     if (kv.count("prod")) {          // prod=<hex model id>,<hex software code>,<hex model version>,<hex serial code>: SetProductInformation (device 0), exact-size heap strings
       std::vector<char *> st;
       std::string c = kv["prod"]; size_t pos = 0;
@@ -247,7 +254,8 @@ static void run_case(const std::string &line) {
     if (n->CANSendFrameBuf) snprintf(b, 256, "| open=%d q=%u/%u/%u", (int)n->OpenState, (unsigned)n->MaxCANSendFrames, (unsigned)n->CANSendFrameBufferRead, (unsigned)n->CANSendFrameBufferWrite);
     else snprintf(b, 256, "| open=%d q=-", (int)n->OpenState);
     out += b;
-    snprintf(b, 256, " ac=%d dic=%d idc=%d", (int)n->AddressChanged, (int)n->DeviceInformationChanged, (int)n->InstallationDescriptionChanged); out += b;
+    // the three indications as the application reads them (destructive reads: this is the final dump of the case)
+    snprintf(b, 256, " ac=%d dic=%d idc=%d", (int)n->ReadResetAddressChanged(), (int)n->ReadResetDeviceInformationChanged(), (int)n->ReadResetInstallationDescriptionChanged()); out += b;
     for (int i = 0; i < ndev && n->Devices; i++) {
       tNMEA2000::tInternalDevice &d = n->Devices[i];
       snprintf(b, 256, " dev%d{src=%u end=%u name=%llx claim=%s tp=%lu dt=%u pc=%s pp=%s pf=%s hb=", i, (unsigned)d.N2kSource, (unsigned)d.AddressClaimEndSource,
